@@ -652,3 +652,267 @@ Proof.
   destruct (collect_bases R keys (r_classes R) (repeat [] n)) as [tb0|e] eqn:E; [|reflexivity].
   split; [reflexivity|]. apply src_closure. apply (collect_bases_irr R keys _ _ _ (irr_repeat n) E).
 Qed.
+
+(* ------------------------------------------------------------------ derived *)
+
+Definition with_der (s : mk_st) (d : list (list nat)) : mk_st :=
+  mk_mk (m_tb s) (m_dir s) d (m_marks s) (m_weight s) (m_cmark s) (m_mark s) (m_local s).
+
+Lemma with_der_der s d : m_der (with_der s d) = d.
+Proof. reflexivity. Qed.
+Lemma with_der_twice s d1 d2 : with_der (with_der s d1) d2 = with_der s d2.
+Proof. reflexivity. Qed.
+Lemma with_der_self s : with_der s (m_der s) = s.
+Proof. now destruct s as [s1 s2 s3 s4 s5 s6 s7 s8]. Qed.
+
+Definition push_der (c : nat) (d : list (list nat)) (b : nat) : list (list nat) := upd_nth b d [] (fun l => l ++ [c]).
+
+Lemma der_inner x c : e_rtc x = Some c -> forall l s,
+  ofor (fun i s' => mk_exec (LPushDer RRtb RRtc) (eset RRtb (Some i) x) s') l s
+  = Some (with_der s (fold_left (push_der c) l (m_der s))).
+Proof.
+  intro Hx. induction l as [|b l IH]; intro s; cbn [ofor fold_left]; [now rewrite with_der_self|].
+  assert (E : mk_exec (LPushDer RRtb RRtc) (eset RRtb (Some b) x) s = Some (with_der s (push_der c (m_der s) b))).
+  { cbn [mk_exec eget eset e_rtb]. replace (e_rtc (mk_env (e_rtc x) (Some b) (e_rtbb x))) with (Some c) by (symmetry; exact Hx). reflexivity. }
+  rewrite E, IH. now rewrite with_der_twice, with_der_der.
+Qed.
+
+Lemma mk_for_dir r o body x s k : eget o x = Some k ->
+  mk_exec (LFor r (LDir o) body) x s = ofor (fun i s' => mk_exec body (eset r (Some i) x) s') (nth k (m_dir s) []) s.
+Proof. intro H. cbn [mk_exec]. now rewrite H. Qed.
+Lemma mk_for_tb r o body x s k : eget o x = Some k ->
+  mk_exec (LFor r (LTb o) body) x s = ofor (fun i s' => mk_exec body (eset r (Some i) x) s') (nth k (m_tb s) []) s.
+Proof. intro H. cbn [mk_exec]. now rewrite H. Qed.
+Lemma mk_for_classes body x s :
+  mk_exec (LForClasses body) x s = ofor (fun i s' => mk_exec body (eset RRtc (Some i) x) s') (seq 0 (length (m_tb s))) s.
+Proof. reflexivity. Qed.
+Lemma mk_seq a b x s : mk_exec (LSeq a b) x s = match mk_exec a x s with Some s' => mk_exec b x s' | None => None end.
+Proof. reflexivity. Qed.
+
+Definition der_class (dir : list (list nat)) (d : list (list nat)) (c : nat) : list (list nat) :=
+  fold_left (push_der c) (nth c dir []) d.
+
+Lemma der_outer x : forall cs s,
+  ofor (fun i s' => mk_exec (LFor RRtb (LDir RRtc) (LPushDer RRtb RRtc)) (eset RRtc (Some i) x) s') cs s
+  = Some (with_der s (fold_left (der_class (m_dir s)) cs (m_der s))).
+Proof.
+  induction cs as [|c cs IH]; intro s; cbn [ofor fold_left]; [now rewrite with_der_self|].
+  rewrite (mk_for_dir RRtb RRtc _ (eset RRtc (Some c) x) s c) by (destruct x; reflexivity).
+  rewrite (der_inner (eset RRtc (Some c) x) c) by (destruct x; reflexivity).
+  rewrite IH. now rewrite with_der_twice.
+Qed.
+
+(* the pure part: appending c to the list of every direct base of c, for c = 0, 1, ..., is the model's filter *)
+Lemma length_push_der c d b : length (push_der c d b) = length d.
+Proof. apply length_upd_nth. Qed.
+Lemma length_fold_push c l : forall d, length (fold_left (push_der c) l d) = length d.
+Proof. induction l as [|b l IH]; intro d; cbn [fold_left]; [reflexivity|]. now rewrite IH, length_push_der. Qed.
+
+Lemma nth_fold_push c : forall l d b, NoDup l -> (forall y, In y l -> y < length d) ->
+  nth b (fold_left (push_der c) l d) [] = nth b d [] ++ (if memn b l then [c] else []).
+Proof.
+  induction l as [|y l IH]; intros d b Hnd Hlt; cbn [fold_left]; [cbn; now rewrite app_nil_r|].
+  inversion Hnd as [|? ? Hy Hnd']; subst.
+  rewrite IH; [|exact Hnd'|intros z Hz; rewrite length_push_der; apply Hlt; now right].
+  change (memn b (y :: l)) with (Nat.eqb b y || memn b l).
+  unfold push_der at 1. destruct (Nat.eqb_spec b y) as [->|Hne]; cbn [orb].
+  - rewrite nth_upd_nth_eq by (apply Hlt; now left).
+    assert (Hm : memn y l = false) by now apply memn_false. rewrite Hm. now rewrite app_nil_r.
+  - rewrite nth_upd_nth_neq by auto. reflexivity.
+Qed.
+
+Lemma derived_fold (dir : list (list nat)) n : length dir = n ->
+  (forall c, NoDup (nth c dir [])) -> (forall c b, In b (nth c dir []) -> b < n) ->
+  forall k d, length d = n -> (forall b, b < n -> nth b d [] = filter (fun c => memn b (nth c dir [])) (seq 0 0)) ->
+  forall b, b < n ->
+  nth b (fold_left (der_class dir) (seq 0 k) d) [] = filter (fun c => memn b (nth c dir [])) (seq 0 k)
+  /\ length (fold_left (der_class dir) (seq 0 k) d) = n.
+Proof.
+  intros Hlen Hnd Hlt. induction k as [|k IH]; intros d Hd H0 b Hb.
+  - cbn [seq fold_left]. split; [now apply H0|exact Hd].
+  - rewrite seq_S, fold_left_app. cbn [fold_left plus]. destruct (IH d Hd H0 b Hb) as [E1 E2].
+    set (X := fold_left (der_class dir) (seq 0 k) d) in *.
+    change (der_class dir X k) with (fold_left (push_der k) (nth k dir []) X).
+    rewrite length_fold_push. split; [|exact E2].
+    rewrite nth_fold_push; [|apply Hnd|intros y Hy; rewrite E2; now apply (Hlt k)].
+    rewrite E1, filter_app. cbn [filter]. now destruct (memn b (nth k dir [])).
+Qed.
+
+Lemma length_fold_der_class dir : forall cs d, length (fold_left (der_class dir) cs d) = length d.
+Proof.
+  induction cs as [|c cs IH]; intro d; cbn [fold_left]; [reflexivity|]. rewrite IH. unfold der_class. apply length_fold_push.
+Qed.
+
+Lemma derived_fold_all (dir : list (list nat)) n : length dir = n ->
+  (forall c, NoDup (nth c dir [])) -> (forall c b, In b (nth c dir []) -> b < n) ->
+  fold_left (der_class dir) (seq 0 n) (repeat [] n) = map (derived_of dir) (seq 0 n).
+Proof.
+  intros Hlen Hnd Hlt. apply (nth_ext _ _ [] []).
+  - now rewrite length_fold_der_class, repeat_length, map_length, seq_length.
+  - intros b Hb. rewrite length_fold_der_class, repeat_length in Hb.
+    destruct (derived_fold dir n Hlen Hnd Hlt n (repeat [] n)) with (b := b) as [E _].
+    + apply repeat_length.
+    + intros b' _. now rewrite nth_repeat_nil.
+    + exact Hb.
+    + rewrite E. rewrite (nth_map_seq (derived_of dir) n b []) by exact Hb. unfold derived_of. now rewrite Hlen.
+Qed.
+
+Theorem src_derived s n : length (m_tb s) = n -> length (m_dir s) = n -> m_der s = repeat [] n ->
+  (forall c, NoDup (nth c (m_dir s) [])) -> (forall c b, In b (nth c (m_dir s) []) -> b < n) ->
+  exists s', mk_exec gen_derived env0 s = Some s' /\ m_der s' = map (derived_of (m_dir s)) (seq 0 n) /\ s' = with_der s (m_der s').
+Proof.
+  intros Htb Hdir Hder Hnd Hlt. unfold gen_derived. rewrite mk_for_classes, der_outer, Htb.
+  eexists. split; [reflexivity|]. split; [|reflexivity]. rewrite with_der_der, Hder.
+  now apply derived_fold_all.
+Qed.
+
+(* ------------------------------------------------------------------ dedup *)
+
+Definition mark_all (M : nat) (l : list nat) (marks : list nat) : list nat := fold_left (fun m y => set_nth y m M) l marks.
+
+Lemma set_nth_same {A} (d : A) c (l : list A) v : nth c l d = v -> set_nth c l v = l.
+Proof. intros <-. apply set_nth_nth. Qed.
+
+Lemma length_mark_all M l : forall marks, length (mark_all M l marks) = length marks.
+Proof. induction l as [|y l IH]; intro marks; cbn [mark_all fold_left]; [reflexivity|]. fold (mark_all M l (set_nth y marks M)). now rewrite IH, length_set_nth. Qed.
+
+Lemma nth_mark_all M l : forall marks k, nth k (mark_all M l marks) 0 = nth k marks 0 \/ nth k (mark_all M l marks) 0 = M.
+Proof.
+  induction l as [|y l IH]; intros marks k; cbn [mark_all fold_left]; [now left|]. fold (mark_all M l (set_nth y marks M)).
+  destruct (IH (set_nth y marks M) k) as [E|E]; [|now right]. rewrite E.
+  destruct (Nat.eq_dec y k) as [->|Hne].
+  - destruct (Nat.lt_ge_cases k (length marks)) as [Hlt|Hge]; [right; now apply nth_set_nth_eq|left; now rewrite set_nth_oob].
+  - left. now apply nth_set_nth_neq.
+Qed.
+
+Definition dd_body : lstmt := LIf (KMarkNe RRtb) (LSeq (LPushLocal RRtb) (LSetMark RRtb)).
+
+Lemma dd_inner x : forall l tb dir der marks w cm M loc seen,
+  (forall y, In y l -> y < length marks) ->
+  (forall k, k < length marks -> (nth k marks 0 = M <-> In k seen)) ->
+  ofor (fun i s' => mk_exec dd_body (eset RRtb (Some i) x) s') l (mk_mk tb dir der marks w cm M loc)
+  = Some (mk_mk tb dir der (mark_all M l marks) w cm M (loc ++ dedupn l seen)).
+Proof.
+  induction l as [|y l IH]; intros tb dir der marks w cm M loc seen Hlt Hseen; cbn [ofor mark_all fold_left dedupn].
+  - now rewrite app_nil_r.
+  - fold (mark_all M l (set_nth y marks M)).
+    assert (Hy : y < length marks) by (apply Hlt; now left).
+    assert (Estep : mk_exec dd_body (eset RRtb (Some y) x) (mk_mk tb dir der marks w cm M loc)
+                    = if Nat.eqb (nth y marks 0) M then Some (mk_mk tb dir der marks w cm M loc)
+                      else Some (mk_mk tb dir der (set_nth y marks M) w cm M (loc ++ [y]))).
+    { unfold dd_body. cbn [mk_exec mk_cond eget eset e_rtb m_marks m_mark].
+      destruct (Nat.eqb (nth y marks 0) M); cbn [negb]; [reflexivity|].
+      cbn [mk_exec eget eset e_rtb m_marks m_mark m_tb m_dir m_der m_weight m_cmark m_local].
+      apply Nat.ltb_lt in Hy. now rewrite Hy. }
+    rewrite Estep.
+    destruct (Nat.eqb_spec (nth y marks 0) M) as [E|E].
+    + assert (Hm : memn y seen = true) by (apply memn_In; now apply (Hseen y Hy)). rewrite Hm.
+      rewrite (set_nth_same 0 y marks M E).
+      apply IH; [intros z Hz; apply Hlt; now right|exact Hseen].
+    + assert (Hm : memn y seen = false) by (apply memn_false; intro Hin; apply E; now apply (Hseen y Hy)). rewrite Hm.
+      rewrite (IH tb dir der (set_nth y marks M) w cm M (loc ++ [y]) (y :: seen)).
+      * now rewrite <- app_assoc.
+      * intros z Hz. rewrite length_set_nth. apply Hlt. now right.
+      * intros k Hk. rewrite length_set_nth in Hk. cbn [In]. destruct (Nat.eq_dec y k) as [->|Hne].
+        -- rewrite nth_set_nth_eq by exact Hk. split; [now left|reflexivity].
+        -- rewrite nth_set_nth_neq by exact Hne. rewrite (Hseen k Hk). split; [now right|intros [H|H]; [contradiction|exact H]].
+Qed.
+
+Definition dd (l : list nat) : list nat := dedupn l [].
+Definition dd_class_body : lstmt :=
+  LSeq LClearLocal (LSeq LNewMark (LSeq (LFor RRtb (LTb RRtc) dd_body) (LSeq LSetWeightLocal LSwapTbLocal))).
+
+Definition marks_ok (n : nat) (marks : list nat) (cm : nat) : Prop := length marks = n /\ forall k, nth k marks 0 <= cm.
+
+Lemma dd_class x c tb dir der marks w cm M loc n : marks_ok n marks cm -> (forall y, In y (nth c tb []) -> y < n) ->
+  exists marks' loc',
+    mk_exec dd_class_body (eset RRtc (Some c) x) (mk_mk tb dir der marks w cm M loc)
+    = Some (mk_mk (set_nth c tb (dd (nth c tb []))) dir der marks' (set_nth c w (length (dd (nth c tb [])))) (S cm) (S cm) loc')
+    /\ marks_ok n marks' (S cm).
+Proof.
+  intros [Hlen Hle] Hwf. unfold dd_class_body.
+  assert (Hc : e_rtc (eset RRtc (Some c) x) = Some c) by (destruct x; reflexivity).
+  remember (LFor RRtb (LTb RRtc) dd_body) as B eqn:HB.
+  cbn [mk_exec m_tb m_dir m_der m_marks m_weight m_cmark m_mark m_local]. subst B.
+  rewrite (mk_for_tb RRtb RRtc dd_body _ _ c) by exact Hc. cbn [m_tb].
+  rewrite (dd_inner _ (nth c tb []) tb dir der marks w (S cm) (S cm) [] []).
+  - cbn [app mk_exec eget m_tb m_dir m_der m_marks m_weight m_cmark m_mark m_local]. rewrite ?Hc.
+    cbn [mk_exec eget m_tb m_dir m_der m_marks m_weight m_cmark m_mark m_local]. rewrite ?Hc.
+    eexists. eexists. split; [reflexivity|]. split; [now rewrite length_mark_all|].
+    intro k. destruct (nth_mark_all (S cm) (nth c tb []) marks k) as [E|E]; rewrite E; [specialize (Hle k); lia|lia].
+  - intros y Hy. rewrite Hlen. now apply Hwf.
+  - intros k _. cbn [In]. specialize (Hle k). split; [lia|tauto].
+Qed.
+
+Definition dd_step (p : list (list nat) * list nat) (c : nat) : list (list nat) * list nat :=
+  (set_nth c (fst p) (dd (nth c (fst p) [])), set_nth c (snd p) (length (dd (nth c (fst p) [])))).
+
+Lemma dd_In l x : In x (dd l) -> In x l.
+Proof. unfold dd. rewrite dedupn_In. tauto. Qed.
+
+Lemma dd_step_wf n p c : (forall c' y, In y (nth c' (fst p) []) -> y < n) ->
+  forall c' y, In y (nth c' (fst (dd_step p c)) []) -> y < n.
+Proof.
+  intros H c' y Hin. unfold dd_step in Hin. cbn [fst] in Hin.
+  destruct (Nat.eq_dec c c') as [->|Hne].
+  - destruct (Nat.lt_ge_cases c' (length (fst p))) as [Hlt|Hge].
+    + rewrite nth_set_nth_eq in Hin by exact Hlt. apply dd_In in Hin. now apply (H c').
+    + rewrite set_nth_oob in Hin by exact Hge. now apply (H c').
+  - rewrite nth_set_nth_neq in Hin by exact Hne. now apply (H c').
+Qed.
+
+Lemma dd_outer x n : forall cs tb dir der marks w cm M loc, marks_ok n marks cm ->
+  (forall c y, In y (nth c tb []) -> y < n) ->
+  exists marks' cm' M' loc',
+    ofor (fun i s' => mk_exec dd_class_body (eset RRtc (Some i) x) s') cs (mk_mk tb dir der marks w cm M loc)
+    = Some (mk_mk (fst (fold_left dd_step cs (tb, w))) dir der marks' (snd (fold_left dd_step cs (tb, w))) cm' M' loc')
+    /\ marks_ok n marks' cm'.
+Proof.
+  induction cs as [|c cs IH]; intros tb dir der marks w cm M loc Hok Hwf; cbn [ofor fold_left].
+  - exists marks, cm, M, loc. split; [reflexivity|exact Hok].
+  - destruct (dd_class x c tb dir der marks w cm M loc n Hok (Hwf c)) as [marks1 [loc1 [E Hok1]]]. rewrite E.
+    destruct (IH (set_nth c tb (dd (nth c tb []))) dir der marks1 (set_nth c w (length (dd (nth c tb [])))) (S cm) (S cm) loc1 Hok1)
+      as [marks' [cm' [M' [loc' [E' Hok']]]]].
+    + apply (dd_step_wf n (tb, w) c). exact Hwf.
+    + exists marks', cm', M', loc'. split; [exact E'|exact Hok'].
+Qed.
+
+Lemma set_nth_app_mid {A} (pre : list A) x suf v : set_nth (length pre) (pre ++ x :: suf) v = pre ++ v :: suf.
+Proof. induction pre as [|a pre IH]; cbn [length app set_nth]; [reflexivity|]. now rewrite IH. Qed.
+
+Lemma nth_app_mid {A} (pre : list A) x suf d : nth (length pre) (pre ++ x :: suf) d = x.
+Proof. rewrite app_nth2 by lia. now rewrite Nat.sub_diag. Qed.
+
+Lemma dd_fold : forall suf pre wsuf wpre, length wsuf = length suf -> length wpre = length pre ->
+  fold_left dd_step (seq (length pre) (length suf)) (pre ++ suf, wpre ++ wsuf)
+  = (pre ++ map dd suf, wpre ++ map (fun l => length (dd l)) suf).
+Proof.
+  induction suf as [|x suf IH]; intros pre wsuf wpre Hw Hp.
+  - destruct wsuf; [|cbn in Hw; lia]. reflexivity.
+  - destruct wsuf as [|v wsuf]; [cbn in Hw; lia|]. cbn [length seq fold_left map].
+    unfold dd_step at 2. cbn [fst snd]. rewrite nth_app_mid, set_nth_app_mid.
+    rewrite <- Hp at 2. rewrite set_nth_app_mid.
+    replace (pre ++ dd x :: suf) with ((pre ++ [dd x]) ++ suf) by (now rewrite <- app_assoc).
+    replace (wpre ++ length (dd x) :: wsuf) with ((wpre ++ [length (dd x)]) ++ wsuf) by (now rewrite <- app_assoc).
+    replace (S (length pre)) with (length (pre ++ [dd x])) by (rewrite app_length; cbn; lia).
+    rewrite IH; [|cbn in Hw; lia|rewrite !app_length; cbn; lia].
+    now rewrite <- !app_assoc.
+Qed.
+
+Theorem src_dedup tb dir der marks w cm M loc n :
+  length tb = n -> length w = n -> marks_ok n marks cm -> (forall c y, In y (nth c tb []) -> y < n) ->
+  exists marks' cm' M' loc',
+    mk_exec gen_dedup env0 (mk_mk tb dir der marks w cm M loc)
+    = Some (mk_mk (map dd tb) dir der marks' (map (fun l => length (dd l)) tb) cm' M' loc')
+    /\ marks_ok n marks' cm'.
+Proof.
+  intros Htb Hw [Hlen Hle] Hwf.
+  change gen_dedup with (LSeq LNewMark (LForClasses dd_class_body)).
+  remember (LForClasses dd_class_body) as B eqn:HB.
+  cbn [mk_exec m_tb m_dir m_der m_marks m_weight m_cmark m_mark m_local]. subst B. rewrite mk_for_classes. cbn [m_tb].
+  destruct (dd_outer env0 n (seq 0 (length tb)) tb dir der marks w (S cm) (S cm) loc) as [marks' [cm' [M' [loc' [E Hok]]]]].
+  - split; [exact Hlen|]. intro k. specialize (Hle k). lia.
+  - exact Hwf.
+  - exists marks', cm', M', loc'. split; [|exact Hok]. rewrite E.
+    pose proof (dd_fold tb [] w [] ltac:(lia) eq_refl) as F. cbn [app length] in F. rewrite F. reflexivity.
+Qed.
